@@ -5,6 +5,8 @@ package main
 
 import (
 	"encoding/json"
+	"fmt"
+	"os"
 	"strings"
 )
 
@@ -56,9 +58,12 @@ func (e *editor) rules(rs []Rule) []Rule {
 		rs[i].Decls = e.decls(rs[i].Decls)
 		rs[i].Rules = e.rules(rs[i].Rules)
 		// simplify a selector list / compound prelude to its first simple part
-		if !e.done && !strings.HasPrefix(rs[i].Pre, "@") && strings.ContainsAny(rs[i].Pre, " ,>+~") {
+		// (a broken prelude made of separators only, e.g. ">" or ",", has no such part:
+		// it is not a candidate)
+		if parts := strings.FieldsFunc(rs[i].Pre, func(r rune) bool { return strings.ContainsRune(" ,>+~", r) }); !e.done &&
+			!strings.HasPrefix(rs[i].Pre, "@") && len(parts) > 0 && parts[0] != rs[i].Pre {
 			if e.hit() {
-				rs[i].Pre = strings.FieldsFunc(rs[i].Pre, func(r rune) bool { return strings.ContainsRune(" ,>+~", r) })[0]
+				rs[i].Pre = parts[0]
 			}
 		}
 	}
@@ -158,9 +163,17 @@ func sameFailure(a, b Outcome) bool {
 }
 
 // Shrink greedily minimises d while run(d) fails like `want`. At most maxCalls renders.
-func Shrink(d *Doc, want Outcome, run func(*Doc) Outcome, maxCalls int) (*Doc, int) {
-	calls := 0
-	cur := d
+//
+// A defect of the shrinker itself must never take the stream down or lose the
+// failing document: a panic in here is recovered and the best document found so
+// far (at worst d itself) is returned.
+func Shrink(d *Doc, want Outcome, run func(*Doc) Outcome, maxCalls int) (cur *Doc, calls int) {
+	cur = d
+	defer func() {
+		if r := recover(); r != nil {
+			fmt.Fprintf(os.Stderr, "c01: shrinker panicked (%v): document kept as it is\n", r)
+		}
+	}()
 	for pass := 0; pass < 6; pass++ {
 		progress := false
 		k := 0
